@@ -74,9 +74,11 @@ namespace
         virtual Status put(uint8_t c) = 0;
         virtual Bytes delivered() = 0; // content of the completed packet (valid right after NEWPACKAGE)
         virtual size_t stored() = 0;
+        virtual void touch() = 0; // the NUL-terminating accessor (writes buf[stored()])
         // receiver restart by its owner: how 1 = init() on the same buffer, 2 = setbuf() on the same buffer,
         // 3 = setbuf() onto a fresh buffer of the same capacity (the old block is freed: a stale pointer trips ASan)
-        virtual void restart(int how) = 0;
+        // 4 = setbuf() onto a fresh buffer of capacity newcap (given for how == 4 only)
+        virtual void restart(int how, int newcap = 0) = 0;
     };
     struct RxCfg : Rx
     {
@@ -106,8 +108,10 @@ namespace
             return Bytes((const uint8_t *)s, (const uint8_t *)s + n);
         }
         size_t stored() override { return r.size(); }
-        void restart(int how) override
+        void touch() override { (void)r.cstr(); }
+        void restart(int how, int newcap = 0) override
         {
+            if (how == 4) cap = newcap;
             if (how == 1) r.init(buf.get(), cap);
             else if (how == 2) r.setbuf(buf.get(), cap);
             else
@@ -149,10 +153,12 @@ namespace
             return Bytes((const uint8_t *)s, (const uint8_t *)s + n - 1);
         }
         size_t stored() override { return (size_t)sline_size(&r.line); }
-        void restart(int how) override
+        void touch() override { (void)sline_getline(&r.line); }
+        void restart(int how, int newcap = 0) override
         {
             std::unique_ptr<uint8_t[]> fresh;
-            if (how == 3) { fresh.reset(new uint8_t[cap]); buf.swap(fresh); }
+            if (how == 4) cap = newcap;
+            if (how >= 3) { fresh.reset(new uint8_t[cap]); buf.swap(fresh); }
             memset(&r, 0, sizeof r);
             gstuff_autorecv_setbuf_v1(&r, buf.get(), cap);
         }
@@ -246,6 +252,14 @@ namespace
                 if (n == 5) return via_array(std::integral_constant<size_t, 5>());
                 if (n == 8) return via_array(std::integral_constant<size_t, 8>());
                 if (n == 16) return via_array(std::integral_constant<size_t, 16>());
+            }
+            if (n % 4 == 3)
+            {
+                // the payload is the tail of a bigger message (a header in front of it), handed over as a slice that ends where
+                // the parent ends
+                std::string msg = std::string("HDR!") + std::string(in.get(), n);
+                igris::buffer whole(msg.data(), msg.size());
+                return gstuffing(whole.slice(4, n), ctx);
             }
             int how = (int)((n + (n ? (uint8_t)p[0] : 0)) % 3);
             if (how == 1) return gstuffing(igris::buffer(std::string(in.get(), n)), ctx); // (the temporary lives until the call returns)
@@ -348,9 +362,13 @@ namespace
             const Elem &e = stream[j];
             if (e.restart)
             {
-                rx->restart(e.restart);
+                if (e.restart == 4) cap = std::max(2, cap / 2); // the owner re-binds the receiver to a smaller buffer
+                rx->restart(e.restart, cap);
                 ref.anchored = false; // nothing before a restart counts as "since the last start marker"
-                fault(e.restart == 1 ? "receiver_restart" : e.restart == 2 ? "receiver_restart_setbuf" : "receiver_restart_new_buffer");
+                fault(e.restart == 1 ? "receiver_restart" : e.restart == 2 ? "receiver_restart_setbuf" : e.restart == 3 ? "receiver_restart_new_buffer" : "receiver_restart_smaller_buffer");
+                // right after the re-bind, before any further byte: the accessors see an empty line inside the new buffer
+                if (rx->stored() > (size_t)cap - 1) violate("C05/S1-capacity", "%s: right after a re-bind to a buffer of capacity %d the receiver reports %zu stored bytes", VAR_NAME[variant], cap, rx->stored());
+                if (e.restart == 4) rx->touch();
             }
             uint8_t b = e.b;
             if (e.magic)
@@ -508,7 +526,7 @@ namespace
         case F_REPLACE: es[off].b = special_byte(a, val); break;
         case F_INSERT: es.insert(es.begin() + off, Elem{special_byte(a, val), 0, -1, 0}); break;
         case F_DUP: es.insert(es.begin() + off, es[off]); break;
-        case F_RESTART: es[off].restart = 1 + (int)mod(val, 3); break;
+        case F_RESTART: es[off].restart = 1 + (int)mod(val, 4); break;
         case F_MAGIC: es.insert(es.begin() + off, Elem{0, 1, -1, 0}); break;
         }
         for (auto &e : es) e.frame = -1; // a faulted frame is no longer a well-formed frame
@@ -584,8 +602,8 @@ namespace
             // (cfg[4] selects where) and was then re-initialised by its owner in way cfg[3] (0: no earlier session); cfg[3] = 4: the
             // earlier traffic was one complete frame too long for the buffer, and the receiver was not re-initialised; cfg[3] = 5: the
             // earlier traffic was one complete frame damaged inside an escape pair, no re-initialisation either; cfg[3] = 6: a complete
-            // frame with a wrong CRC
-            p.cfg = {variant, enc, cap, !faults && r.chance(1, 4) ? (int64_t)r.range(1, 6) : 0, (int64_t)r.below(64)};
+            // frame with a wrong CRC; cfg[3] = 7: a frame that lost its tail (a proper prefix), no re-initialisation
+            p.cfg = {variant, enc, cap, !faults && r.chance(1, 4) ? (int64_t)r.range(1, 7) : 0, (int64_t)r.below(64)};
             bool sweep = faults && r.chance(1, 3) && longest <= 200;
             if (faults && r.chance(1, 3))
             {
@@ -740,8 +758,9 @@ namespace
             if (!faults) cap = std::max(cap, (int)maxpayload + 2); // C04: a large enough buffer
 
             LinkStats ls;
-            int earlier = faults ? 0 : (int)mod(p.c(3, 0), 7);
+            int earlier = faults ? 0 : (int)mod(p.c(3, 0), 8);
             if (earlier == 4 && cap > 1000) earlier = 0; // (an oversized frame for a huge buffer would be a huge frame)
+            if (earlier == 7 && a.same()) earlier = 0;   // (with one marker for start and stop the next frame's opening marker legitimately closes the torso with an error)
             auto build_and_run = [&](long sweep_off) {
                 std::vector<Elem> stream;
                 std::vector<FrameMeta> fr = frames;
@@ -777,6 +796,16 @@ namespace
                     stream.push_back(Elem{a.STOP, 0, -1, 0});
                     last_fault = (long)stream.size() - 1;
                     probe("receiver_reused_after_damaged_escape");
+                }
+                else if (earlier == 7)
+                {
+                    Bytes pl = frames[0].payload;
+                    std::reverse(pl.begin(), pl.end());
+                    Bytes fe = ref_encode(a, pl);
+                    size_t k = 2 + (size_t)mod(p.c(4, 0), (int64_t)fe.size() - 2);
+                    for (size_t i = 0; i < k; i++) stream.push_back(Elem{fe[i], 0, -1, 0});
+                    last_fault = (long)stream.size() - 1;
+                    probe("receiver_reused_after_truncated_frame");
                 }
                 else if (earlier)
                 {
